@@ -20,6 +20,7 @@ for n in $names; do rm -f ./*.o; echo "=== $n"; SAN=
  simbin) SAN=-fsanitize=address; cc_objs $H/simbin.c $D/simcams/simulated.camera.c $D/simcams/3rdParty/pcg-c-basic-0.9/pcg_basic.c $PLAT $C/acquire-device-properties/device/props/components.c; clang++ -g -w -std=gnu++20 $SAN $INC -c $D/simcams/popcount.cpp $D/simcams/imfill.pattern.cpp && clang++ $SAN ./*.o -o t -lpthread -ldl -lm && ./t 2>&1 | head -12 ;;
  trig) cc_objs $H/trig_t.c $D/simcams/simulated.camera.c $D/simcams/3rdParty/pcg-c-basic-0.9/pcg_basic.c $PLAT $C/acquire-device-properties/device/props/components.c; clang++ -g -w -std=gnu++20 $INC -c $D/simcams/popcount.cpp $D/simcams/imfill.pattern.cpp && clang++ ./*.o -o t -lpthread -ldl -lm && ./t 2>&1 | tail -3 ;;
  pcopy) clang $CF -fsanitize=address $H/pcopy.c $C/acquire-device-properties/device/props/storage.c $C/acquire-core-logger/logger.c -o t && ./t 2>&1 | head -8 ;;
+ rawtail) clang $CF $H/rawtail_t.c $D/storage/raw.c $C/acquire-device-properties/device/props/storage.c $PLAT -o t -lpthread -ldl && ./t </dev/null 2>&1 | tail -3 ;;
  raw) clang $CF $H/raw_t.c $D/storage/raw.c $C/acquire-device-properties/device/props/storage.c $PLAT -o t -lpthread -ldl && ./t </dev/null 2>&1 | tail -4 ;;
  tiff|sbs) cc_objs $PROPS $PLAT; clang++ -g -w -std=gnu++20 $INC $H/tiff_t.cpp $D/storage/tiff.cpp $D/storage/side-by-side-tiff.cpp ./*.o -o t -lpthread -ldl && { if [ $n = sbs ]; then ./t sbs 2>&1 | grep -v '^$' | tail -5; else (./t 2>&1 | grep -v '^$' | cut -c1-150 | tail -4; echo "exit=${PIPESTATUS[0]} (139 = stack overflow)"); fi; } ;;
  latejoin) cp "$(find $R/_build -name libacquire-driver-common.so | head -1)" . 2>/dev/null || { echo "needs a built libacquire-driver-common.so under $R/_build"; continue; }
